@@ -272,6 +272,9 @@ func RunC11(c *Ctx) error {
 			p := simrt.Plan{Map: mp, Clock: 1700000000 + int64(r.Intn(1<<30)), Rand: r.U64(), Pid: 2 + r.Intn(60000), Host: fmt.Sprintf("h%d", r.Intn(100)), TickBudget: 4e9}
 			// goroutine schedule and CPU count (dormant while gocc has no goroutines)
 			p.CPUs = []int{1, 2, 4, 16}[r.Intn(4)]
+			if mp.Policy != "identity" {
+				p.Heap = r.U64() | 1 // addresses, and the order of addresses, of what gocc allocates
+			}
 			switch r.Intn(4) {
 			case 0:
 				p.Sched = simrt.SchedPlan{Policy: "main-first"}
@@ -628,10 +631,25 @@ func c11Report(c *Ctx, g *sut.Gocc, w *engine.Worker, j *c11Job, ref *engine.Res
 			}
 		}
 	}
+	if spec.Plan.Heap != 0 {
+		// everything as in the reference except where the allocator places things
+		p := simrt.Plan{Map: simrt.MapPlan{Policy: "identity"}, Clock: 1700000000, Pid: 4242, TickBudget: 4e9, Heap: spec.Plan.Heap}
+		s2 := j.spec
+		s2.Plan = &p
+		if r, err := w.Exec(g.Sim, &s2, 120*time.Second); err == nil {
+			if d := c11Compare(ref, r); d != "" {
+				c.Report(&Violation{Class: "output-differs", Key: map[string]string{"grammar": spec.GrammarID, "site": "heap-addresses"},
+					Detail: fmt.Sprintf("%s %v: with every map order sorted and the same clock, pid and schedule, a differently fragmented heap (seed %d) alone changes the result - the output depends on memory addresses: %s", spec.GrammarID, spec.Flags, p.Heap, d),
+					Plan:   c11Replay{Spec: s2}})
+				return
+			}
+		}
+	}
 	if !second && (spec.Plan.Sched.Policy != "" || spec.Plan.CPUs != 0) {
 		// map order sorted everywhere, only the goroutine schedule / CPU count of the plan
 		p := *j.spec.Plan
 		p.Map = simrt.MapPlan{Policy: "identity"}
+		p.Heap = 0
 		s2 := j.spec
 		s2.Plan = &p
 		if r, err := w.Exec(g.Sim, &s2, 120*time.Second); err == nil {
